@@ -39,6 +39,16 @@ def check_validate(ctx, case):
                 pass
             except Exception as e:  # noqa
                 ctx.fail("{}.{}() raises {} instead of InvalidSequence".format(cls.__name__, meth, type(e).__name__), case)
+    # the same circular record as Bio.SeqIO hands it over (a plain SeqRecord annotated circular): same answer, no exception
+    plain = impl.SeqRecord(impl.Seq(wd), id="q", annotations={"topology": "circular", "molecule_type": "DNA"})
+    try:
+        v = cls(plain).is_valid()
+        if v != (res[0] == "valid") and not res[0].startswith("exc"):
+            ctx.fail("{} on {!r}: is_valid() is {} for a SeqRecord annotated circular but the CircularRecord is {}".format(
+                cls.__name__, wd, v, res[0]), case)
+    except Exception as e:  # noqa
+        ctx.fail("{} on {!r} given as a SeqRecord annotated circular: is_valid() raises {}".format(
+            cls.__name__, wd, type(e).__name__), case)
     ctx.note("verdict:" + res[0])
     ctx.case(case, nontrivial=res[0] != "valid", key=[case["cls"], wd])
     ctx.op(("EVAL", cls, wd, []), case)
